@@ -881,6 +881,10 @@ def _check_option_handlers(tier, seed):
             got = ValueError if not isinstance(e, asyncssh.KeyImportError) else 'KeyImportError'
         except Exception as e:
             got = type(e).__name__
+        if isinstance(got, dict):        # keywords are case-insensitive: compare them in canonical (lower) case
+            got = {k.lower(): v for k, v in got.items()}
+        if isinstance(want, dict):
+            want = {k.lower(): v for k, v in want.items()}
         if got != want:
             bad.append({'options': opts, 'asyncssh': repr(got), 'spec': repr(want)})
     plists = ['a*', 'a*,!ab', '*,!root', 'root', 'b?', '*,!Root']
